@@ -118,7 +118,8 @@ pub fn run(tier: Tier, seed: u64) -> i32 {
         "cases = (circuit, scenario): D1 repeats in one process, D2 fresh child processes, D3 private rayon pools of \
          many sizes (half with seeded delays injected at the work-item hooks), D4 16 OS threads sharing one prover \
          and verifier (prove / verify / compile under distinct labels) vs the same jobs sequentially, D5 the \
-         alloc-only (serial) build; each yields blake2b digests of prover, verifier and proof+public-input bytes \
+         alloc-only (serial) build, D6 all jobs one after another on one thread in descending-then-ascending size \
+         order (history of a thread); each yields blake2b digests of prover, verifier and proof+public-input bytes \
          which must equal the baseline; non-trivial = circuit takes a parallel path (8n >= 2^12); distinct = \
          fingerprint of (circuit, scenario, parameters)",
     );
@@ -134,6 +135,7 @@ pub fn run(tier: Tier, seed: u64) -> i32 {
     let sizes: Vec<usize> = tier.pick(vec![300, 512, 2100], vec![250, 300, 512, 520, 2100, 4096, 4100, 8200]);
     let pools: Vec<usize> = tier.pick(vec![1, 2, 3, 4, 5, 6, 7, 8, 12, 16, 17], vec![1, 2, 3, 4, 5, 6, 7, 8, 9, 12, 15, 16, 17, 24, 32]);
     let n_children = tier.pick(4, 8);
+    let mut kept: Vec<(Arc<Program>, Inputs, String, Vec<BlsScalar>, usize, Digests)> = Vec::new();
     for (idx, &rows) in sizes.iter().enumerate() {
         let idx = idx as u64;
         let (prog, inputs) = program_for(seed, idx, rows);
@@ -147,6 +149,7 @@ pub fn run(tier: Tier, seed: u64) -> i32 {
                 continue;
             }
         };
+        kept.push((prog.clone(), inputs.clone(), label.clone(), script.clone(), rows, Digests { prover: base.prover.clone(), verifier: base.verifier.clone(), proof: base.proof.clone() }));
         let compare = |scenario: &str, param: String, got: Result<Digests, String>| {
             let desc = json!({"rows": rows, "scenario": scenario, "param": param});
             ev.case(&desc, parallel);
@@ -300,7 +303,62 @@ pub fn run(tier: Tier, seed: u64) -> i32 {
             }
         }
     }
+    // D6 history of a thread: the same jobs (plus small extra circuits of other
+    // sizes), run one after another on ONE fresh OS thread / one rayon worker in
+    // descending-then-ascending size order, must give what each gave on its
+    // own - nothing a thread did before may leak into a later key or proof
+    {
+        let mut jobs: Vec<(Arc<Program>, Inputs, String, Vec<BlsScalar>, usize, Digests)> = Vec::new();
+        for (k, rows) in [(90u64, 40usize), (91, 9), (92, 130)] {
+            let (prog, inputs) = program_for(seed, k, rows);
+            let label = format!("c18-hist-{k}");
+            let script = script_for(seed, k, 0);
+            match std::thread::scope(|s| s.spawn(|| run_once(&prog, &inputs, label.as_bytes(), &script, rows)).join().unwrap()) {
+                Ok(d) => jobs.push((prog, inputs, label, script, rows, d)),
+                Err(e) => ev.violation("C18:baseline-run-failed", json!({"rows": rows, "error": e})),
+            }
+        }
+        jobs.extend(kept.into_iter().filter(|j| j.4 <= 2500 || tier == Tier::Thorough));
+        jobs.sort_by_key(|j| std::cmp::Reverse(j.4));
+        let mut order: Vec<usize> = (0..jobs.len()).collect();
+        order.extend((0..jobs.len()).rev());
+        let run_order = |who: &str, runner: &dyn Fn(&(dyn Fn() -> Vec<Result<Digests, String>> + Sync)) -> Vec<Result<Digests, String>>| {
+            let body = || -> Vec<Result<Digests, String>> { order.iter().map(|&i| run_once(&jobs[i].0, &jobs[i].1, jobs[i].2.as_bytes(), &jobs[i].3, jobs[i].4)).collect() };
+            let got = runner(&body);
+            for (pos, (&i, g)) in order.iter().zip(got).enumerate() {
+                let desc = json!({"rows": jobs[i].4, "scenario": "D6-thread-history", "where": who, "position": pos,
+                    "previous_rows": if pos > 0 { Some(jobs[order[pos - 1]].4) } else { None }});
+                ev.case(&desc, true);
+                ev.bucket("scenario.D6-thread-history");
+                match g {
+                    Ok(d) => {
+                        let b = &jobs[i].5;
+                        let mut diff = Vec::new();
+                        if d.prover != b.prover {
+                            diff.push("prover-bytes");
+                        }
+                        if d.verifier != b.verifier {
+                            diff.push("verifier-bytes");
+                        }
+                        if d.proof != b.proof {
+                            diff.push("proof-bytes");
+                        }
+                        if !diff.is_empty() {
+                            ev.violation(&format!("C18:D6-thread-history:{}-differ", diff.join("+")), json!({"case": desc}));
+                        }
+                    }
+                    Err(e) => ev.violation("C18:D6-thread-history:run-failed", json!({"case": desc, "error": e})),
+                }
+            }
+        };
+        run_order("fresh-os-thread", &|body| std::thread::scope(|s| s.spawn(|| body()).join().unwrap()));
+        for p in [1usize, 2] {
+            let pool = rayon::ThreadPoolBuilder::new().num_threads(p).build().unwrap();
+            run_order(&format!("rayon-pool-of-{p}"), &|body| pool.install(|| body()));
+        }
+    }
     sanitizer_summary(&ev, "C18");
+    ev.floor("thread-history jobs", ev.bucket_get("scenario.D6-thread-history"), 24);
     ev.floor("pool sizes", ev.set_len("pools") as u64, pools.len() as u64);
     ev.floor("fresh processes", ev.bucket_get("scenario.D2-fresh-process"), (n_children * sizes.len()) as u64);
     ev.floor("shared-key jobs", ev.bucket_get("scenario.D4-shared-keys"), 32);
